@@ -139,4 +139,215 @@ theorem multiple_lookup_correct (fx : Fixes) (root : Nat) (named : String → Lo
   simp [List.lookup]
   cases (rs.flatMap substPairs).lookup g <;> simp
 
+/-! single substitution -/
+
+def singlePairsOf : Rule → List (Glyph × Glyph)
+  | .single t r => singlePairs (normSingle t r).1 (normSingle t r).2
+  | _ => []
+
+theorem substPairs_of_single (r : Rule) (h : r.kind = .single) :
+    substPairs r = (singlePairsOf r).map fun p => (p.1, [p.2]) := by
+  cases r <;> simp_all [Rule.kind, substPairs, singlePairsOf]
+
+theorem flatMap_substPairs_of_single (rs : List Rule) (hk : ∀ r ∈ rs, r.kind = .single) :
+    rs.flatMap substPairs = (rs.flatMap singlePairsOf).map fun p => (p.1, [p.2]) := by
+  induction rs with
+  | nil => rfl
+  | cons r rs ih =>
+    simp only [List.flatMap_cons, List.map_append]
+    rw [substPairs_of_single r (hk r (by simp)), ih (fun r' h => hk r' (by simp [h]))]
+
+theorem foldl_add_single (fx : Fixes) (root : Nat) (named : String → LookupId) (rs : List Rule)
+    (hk : ∀ r ∈ rs, r.kind = .single) (m : List (Glyph × Glyph)) :
+    rs.foldl (Builder.add fx root named) (.single m)
+      = .single ((rs.flatMap singlePairsOf).foldl (fun m p => mapInsert p.1 p.2 m) m) := by
+  induction rs generalizing m with
+  | nil => rfl
+  | cons r rs ih =>
+    have hr := hk r (by simp)
+    have ht : ∀ r' ∈ rs, r'.kind = .single := fun r' h => hk r' (by simp [h])
+    cases r with
+    | single t r =>
+      simp only [List.foldl_cons, Builder.add, List.flatMap_cons, List.foldl_append, singlePairsOf]
+      rw [ih ht]
+    | _ => simp [Rule.kind] at hr
+
+/-- **Single substitution lookups.** -/
+theorem single_lookup_correct (fx : Fixes) (root : Nat) (named : String → LookupId) (rs : List Rule)
+    (hk : ∀ r ∈ rs, r.kind = .single)
+    (hnd : (rs.flatMap Wf.targets).Nodup)
+    (ign : Glyph → Bool) (alt : Nat) (rev : List Glyph) (g : Glyph) (suf : List Glyph) :
+    (buildSubtables (rs.foldl (Builder.add fx root named) (.single []))).findSome?
+        (fun st => OT.simpleSubtableStep ign alt st rev g suf)
+      = Src.substStep rs rev g suf := by
+  have hkeys : ((rs.flatMap singlePairsOf).map (·.1)).Nodup := by
+    have h := (flatMap_keys_sublist rs).nodup hnd
+    rw [flatMap_substPairs_of_single rs hk] at h
+    simpa [List.map_map, Function.comp_def] using h
+  rw [foldl_add_single fx root named rs hk, substStep_eq, flatMap_substPairs_of_single rs hk,
+    lookup_map_snd (fun x => [x])]
+  simp only [buildSubtables]
+  split
+  · rename_i hempty
+    have hl := lookup_foldl_mapInsert (rs.flatMap singlePairsOf) [] g hkeys
+    rw [List.isEmpty_iff.mp hempty] at hl
+    simp only [List.lookup] at hl
+    cases hq : (rs.flatMap singlePairsOf).lookup g <;> simp_all
+  · simp only [List.findSome?_cons, List.findSome?_nil, OT.simpleSubtableStep]
+    rw [lookup_foldl_mapInsert _ _ _ hkeys]
+    simp [List.lookup]
+    cases (rs.flatMap singlePairsOf).lookup g <;> simp
+
+/-- promoting the single-substitution builder to a multiple-substitution builder
+    (`promote_single_sub_to_multi_if_necessary`) commutes with adding the rules -/
+theorem promote_multi_foldl (ps : List (Glyph × Glyph)) (m : List (Glyph × Glyph)) :
+    (ps.foldl (fun m p => mapInsert p.1 p.2 m) m).map (fun p => (p.1, [p.2]))
+      = (ps.map fun p => (p.1, [p.2])).foldl (fun m p => mapInsert p.1 p.2 m) (m.map fun p => (p.1, [p.2])) := by
+  have hins : ∀ (k : Glyph) (v : Glyph) (m : List (Glyph × Glyph)),
+      (mapInsert k v m).map (fun p => (p.1, [p.2])) = mapInsert k [v] (m.map fun p => (p.1, [p.2])) := by
+    intro k v m
+    induction m with
+    | nil => rfl
+    | cons hd tl ih =>
+      simp only [mapInsert, List.map_cons]
+      split
+      · rfl
+      · split
+        · rfl
+        · simp [ih]
+  induction ps generalizing m with
+  | nil => rfl
+  | cons p ps ih => simp only [List.foldl_cons, List.map_cons, ih, hins]
+
+/-! alternate substitution -/
+
+def altPairs : Rule → List (Glyph × List Glyph)
+  | .alternate t a => [(t, a)]
+  | _ => []
+
+theorem lookup_altPairs (r : Rule) (g : Glyph) : (altPairs r).lookup g = Src.altOf r g := by
+  cases r with
+  | alternate t a =>
+    simp only [altPairs, List.lookup, Src.altOf]
+    by_cases h : g = t
+    · subst h; simp
+    · have : (g == t) = false := by simp [h]
+      simp [this, h]
+  | _ => simp [altPairs, Src.altOf]
+
+theorem altPairs_keys (rs : List Rule) (hk : ∀ r ∈ rs, r.kind = .alternate) :
+    (rs.flatMap altPairs).map (·.1) = rs.flatMap Wf.targets := by
+  induction rs with
+  | nil => rfl
+  | cons r rs ih =>
+    have hr := hk r (by simp)
+    simp only [List.flatMap_cons, List.map_append, ih (fun r' h => hk r' (by simp [h]))]
+    cases r <;> simp_all [Rule.kind, altPairs, Wf.targets]
+
+theorem foldl_add_alternate (fx : Fixes) (root : Nat) (named : String → LookupId) (rs : List Rule)
+    (hk : ∀ r ∈ rs, r.kind = .alternate) (m : List (Glyph × List Glyph)) :
+    rs.foldl (Builder.add fx root named) (.alternate m)
+      = .alternate ((rs.flatMap altPairs).foldl (fun m p => mapInsert p.1 p.2 m) m) := by
+  induction rs generalizing m with
+  | nil => rfl
+  | cons r rs ih =>
+    have hr := hk r (by simp)
+    have ht : ∀ r' ∈ rs, r'.kind = .alternate := fun r' h => hk r' (by simp [h])
+    cases r with
+    | alternate t a =>
+      simp only [List.foldl_cons, Builder.add, List.flatMap_cons, List.foldl_append, altPairs]
+      rw [ih ht]
+      rfl
+    | _ => simp [Rule.kind] at hr
+
+/-- **Alternate substitution lookups**: the same alternates in the same order for every glyph, so
+    the same glyph for every selector `alt`. -/
+theorem alternate_lookup_correct (fx : Fixes) (root : Nat) (named : String → LookupId) (rs : List Rule)
+    (hk : ∀ r ∈ rs, r.kind = .alternate)
+    (hnd : (rs.flatMap Wf.targets).Nodup)
+    (ign : Glyph → Bool) (alt : Nat) (rev : List Glyph) (g : Glyph) (suf : List Glyph) :
+    (buildSubtables (rs.foldl (Builder.add fx root named) (.alternate []))).findSome?
+        (fun st => OT.simpleSubtableStep ign alt st rev g suf)
+      = Src.altStep alt rs rev g suf := by
+  rw [foldl_add_alternate fx root named rs hk]
+  simp only [buildSubtables, List.findSome?_cons, List.findSome?_nil, OT.simpleSubtableStep, Src.altStep]
+  rw [lookup_foldl_mapInsert _ _ _ (by rw [altPairs_keys rs hk]; exact hnd)]
+  have : rs.findSome? (Src.altOf · g) = (rs.flatMap altPairs).lookup g := by
+    rw [← findSome_lookup_flatMap]
+    apply congrArg (fun f => List.findSome? f rs)
+    funext r
+    exact (lookup_altPairs r g).symm
+  rw [this]
+  simp [List.lookup]
+  cases (rs.flatMap altPairs).lookup g with
+  | none => simp
+  | some a =>
+    simp only [Option.bind_some]
+    generalize ((Option.map fun x => ([x], suf)) ∘ fun (x : List Glyph) => x[alt]?) a = o
+    cases o <;> rfl
+
+/-! single positioning -/
+
+def sposPairs : Rule → List (Glyph × Value)
+  | .spos t v => t.glyphs.map (·, v)
+  | _ => []
+
+theorem lookup_sposPairs (r : Rule) (g : Glyph) : (sposPairs r).lookup g = Src.sposOf r g := by
+  cases r with
+  | spos t v => simp only [sposPairs, Src.sposOf, lookup_map_const, GC.has]; rfl
+  | _ => simp [sposPairs, Src.sposOf]
+
+theorem sposPairs_keys (rs : List Rule) (hk : ∀ r ∈ rs, r.kind = .spos) :
+    (rs.flatMap sposPairs).map (·.1) = rs.flatMap Wf.targets := by
+  induction rs with
+  | nil => rfl
+  | cons r rs ih =>
+    have hr := hk r (by simp)
+    simp only [List.flatMap_cons, List.map_append, ih (fun r' h => hk r' (by simp [h]))]
+    cases r <;> simp_all [Rule.kind, sposPairs, Wf.targets, Function.comp_def]
+
+theorem foldl_add_spos (fx : Fixes) (root : Nat) (named : String → LookupId) (rs : List Rule)
+    (hk : ∀ r ∈ rs, r.kind = .spos) (m : List (Glyph × Value)) :
+    rs.foldl (Builder.add fx root named) (.spos m)
+      = .spos ((rs.flatMap sposPairs).foldl (fun m p => mapInsert p.1 p.2 m) m) := by
+  induction rs generalizing m with
+  | nil => rfl
+  | cons r rs ih =>
+    have hr := hk r (by simp)
+    have ht : ∀ r' ∈ rs, r'.kind = .spos := fun r' h => hk r' (by simp [h])
+    cases r with
+    | spos t v =>
+      simp only [List.foldl_cons, Builder.add, List.flatMap_cons, List.foldl_append, sposPairs]
+      rw [ih ht, List.foldl_map]
+    | _ => simp [Rule.kind] at hr
+
+/-- **Single positioning lookups.** -/
+theorem spos_lookup_correct (fx : Fixes) (root : Nat) (named : String → LookupId) (rs : List Rule)
+    (hk : ∀ r ∈ rs, r.kind = .spos)
+    (hnd : (rs.flatMap Wf.targets).Nodup)
+    (ign : Glyph → Bool) (rev : List PGlyph) (x : PGlyph) (suf : List PGlyph) :
+    (buildSubtables (rs.foldl (Builder.add fx root named) (.spos []))).findSome?
+        (fun st => OT.posSubtableStep ign st rev x suf)
+      = Src.sposStep rs rev x suf := by
+  have hkeys : ((rs.flatMap sposPairs).map (·.1)).Nodup := by rw [sposPairs_keys rs hk]; exact hnd
+  have hsrc : rs.findSome? (Src.sposOf · x.1) = (rs.flatMap sposPairs).lookup x.1 := by
+    rw [← findSome_lookup_flatMap]
+    apply congrArg (fun f => List.findSome? f rs)
+    funext r
+    exact (lookup_sposPairs r x.1).symm
+  rw [foldl_add_spos fx root named rs hk]
+  simp only [buildSubtables, Src.sposStep, hsrc]
+  split
+  · rename_i hempty
+    have hl := lookup_foldl_mapInsert (rs.flatMap sposPairs) [] x.1 hkeys
+    rw [List.isEmpty_iff.mp hempty] at hl
+    simp only [List.lookup] at hl
+    cases hq : (rs.flatMap sposPairs).lookup x.1 with
+    | none => simp
+    | some v => rw [hq] at hl; simp at hl
+  · simp only [List.findSome?_cons, List.findSome?_nil, OT.posSubtableStep]
+    rw [lookup_foldl_mapInsert _ _ _ hkeys]
+    simp [List.lookup]
+    cases (rs.flatMap sposPairs).lookup x.1 <;> simp
+
 end Fontc.FeaCompile
